@@ -52,11 +52,15 @@ def run(out: common.Outcome):
             nw = rnd.choice([2, 3])
             uid = rnd.choice([None, "myrun%d" % k])
             args = ["-q", "-n%d" % nw, "--dist", rnd.choice(["load", "worksteal", "loadscope"])] + (["--testrunuid", uid] if uid else [])
-            rc, o, rec = e2e.run_pytest(proj, args, env_extra={"VERIF_E2E_PROBE": "1"})
+            env_extra = {"VERIF_E2E_PROBE": "1"}
+            nested = k % 2 == 1
+            if nested:   # the controller itself runs inside a worker of an outer run (a suite that starts `pytest -n` runs, run with -n)
+                env_extra.update({"PYTEST_XDIST_WORKER": "gw7", "PYTEST_XDIST_WORKER_COUNT": "9", "PYTEST_XDIST_TESTRUNUID": "outer" + "0" * 27})
+            rc, o, rec = e2e.run_pytest(proj, args, env_extra=env_extra)
             runs += 1
             probes = [r for r in rec if r["ev"] == "probe"]
             reports = [r for r in rec if r["ev"] == "report"]
-            replay = {"args": args, "ntests": ntests, "crashers": crashers}
+            replay = {"args": args, "ntests": ntests, "crashers": crashers, "nested": nested}
             sig = {"kind": "e2e-identity"}
             if rc == "timeout" or not probes:
                 out.report(dict(sig, what="run-did-not-complete"), {"rc": rc, "tail": o[-600:]}, replay); continue
@@ -69,6 +73,10 @@ def run(out: common.Outcome):
                     out.report(dict(sig, what="worker-count-wrong"), p, replay)
                 if p["env_uid"] != p["testrun_uid"] or (uid and p["testrun_uid"] != uid):
                     out.report(dict(sig, what="testrun-uid-mismatch"), p, replay)
+            ident = {p["pid"]: (p["worker_id"], p["testrun_uid"]) for p in probes}
+            for ip in (r for r in rec if r["ev"] == "import_probe"):
+                if ip["pid"] in ident and (ip["env_worker"], ip["env_count"], ip["env_uid"]) != (ident[ip["pid"]][0], str(nw), ident[ip["pid"]][1]):
+                    out.report(dict(sig, what="identity-not-in-environment-while-the-worker-configures"), {"import_time": ip, "identity": ident[ip["pid"]]}, replay)
             if len({p["testrun_uid"] for p in probes}) != 1:
                 out.report(dict(sig, what="testrun-uid-not-shared"), {"uids": sorted({p["testrun_uid"] for p in probes})}, replay)
             ids_per_pid = {pid: ids for pid, ids in by_pid.items()}
@@ -94,7 +102,7 @@ def run(out: common.Outcome):
     out.coverage["e2e_runs"] = runs
     out.coverage["evaluations"] += runs
     out.coverage["rule"] = ("simulated sessions with crashes (ids of replacements must be the next unused gw numbers); real -n2/-n3 runs in which tests kill their "
-                            "worker, every test recording PYTEST_XDIST_WORKER / _WORKER_COUNT / _TESTRUNUID, the worker_id and testrun_uid fixtures, its pid "
+                            "worker, (every other run nested inside an outer worker's environment), the conftest at import time and every test recording PYTEST_XDIST_WORKER / _WORKER_COUNT / _TESTRUNUID, the worker_id and testrun_uid fixtures, its pid "
                             "and tmp_path_factory.getbasetemp(); non-trivial = at least one replacement worker")
     out.assumptions.append("environment variables, fixtures and temporary directories are real-run observations (no model can contain the OS); execnet's id allocation is a counter in the model")
 
